@@ -114,6 +114,7 @@ func cmdMerge(args []string) {
 
 	meta := propMeta[*prop]
 	distinct := map[uint64]struct{}{}
+	groups := map[string]int64{}
 	pairs := map[[2]int]struct{}{}
 	counters := map[string]int64{}
 	skipped := map[string]int64{}
@@ -150,6 +151,11 @@ func cmdMerge(args []string) {
 		for _, p := range s.SitePairs {
 			pairs[p] = struct{}{}
 		}
+		for g, n := range s.Groups {
+			if n > groups[g] {
+				groups[g] = n
+			}
+		}
 		for k, v := range s.Counters {
 			counters[k] += v
 		}
@@ -171,6 +177,11 @@ func cmdMerge(args []string) {
 		}
 	}
 
+	nDistinct := int64(len(distinct))
+	for _, n := range groups {
+		nDistinct += n
+	}
+
 	// split counters into groups
 	group := func(prefix string) map[string]int64 {
 		m := map[string]int64{}
@@ -188,7 +199,13 @@ func cmdMerge(args []string) {
 	overlaps := group("overlap.")
 	other := map[string]int64{}
 	for k, v := range counters {
-		if !strings.Contains(k, ".") {
+		known := false
+		for _, p := range []string{"fault.", "probe.", "strategy.", "source.", "overlap."} {
+			if strings.HasPrefix(k, p) {
+				known = true
+			}
+		}
+		if !known {
 			other[k] = v
 		}
 	}
@@ -223,7 +240,7 @@ func cmdMerge(args []string) {
 	}
 	cov := map[string]interface{}{
 		"evaluations":         evals,
-		"distinct_nontrivial": len(distinct),
+		"distinct_nontrivial": nDistinct,
 		"nontrivial_runs":     nontriv,
 		"rule":                meta.rule,
 		"samples":             samples,
@@ -237,7 +254,8 @@ func cmdMerge(args []string) {
 		"probes":              probes,
 		"strategies":          strategies,
 		"sources":             sources,
-		"distinct_schedules_or_cases": len(distinct),
+		"distinct_schedules_or_cases": nDistinct,
+		"distinct_groups":             len(groups),
 		"preemption_site_pairs":       len(pairs),
 		"unit_overlap_pairs":          overlaps,
 		"other_counters":              other,
@@ -276,7 +294,7 @@ func cmdMerge(args []string) {
 	}
 
 	fmt.Printf("%s %s seed=%d: %d runs, %d evaluations, %d distinct non-trivial, %d logical steps, %.0f runs/hour, wall %.1fs\n",
-		*prop, *tier, *seed, runs, evals, len(distinct), steps, rph, *wall)
+		*prop, *tier, *seed, runs, evals, nDistinct, steps, rph, *wall)
 	if len(race) > 0 {
 		fmt.Printf("  race lane: %d workloads, %d reports\n", race["workloads"], race["reports"])
 	}
